@@ -14,6 +14,7 @@ package main
 // selector, or another digest deciding equality breaks the obligation.
 
 import (
+	"strconv"
 	"bytes"
 	"fmt"
 	"go/ast"
@@ -49,7 +50,7 @@ func runState(tier string, seed uint64, out string) {
 		root = v
 	}
 	fset := token.NewFileSet()
-	var vars, fields, hashes, writes [][2]string
+	var vars, fields, hashes, writes, lits [][2]string
 	// first pass: the names of all struct fields declared in the repository
 	fieldNames := map[string]bool{}
 	var files []*ast.File
@@ -88,6 +89,18 @@ func runState(tier string, seed uint64, out string) {
 				for _, sp := range d.Specs {
 					switch sp := sp.(type) {
 					case *ast.ValueSpec:
+						if d.Tok == token.CONST {
+							for _, v := range sp.Values {
+								ast.Inspect(v, func(n ast.Node) bool {
+									if bl, ok := n.(*ast.BasicLit); ok && bl.Kind == token.INT {
+										if x, err := strconv.ParseInt(bl.Value, 0, 64); err != nil || x >= 10 {
+											lits = append(lits, [2]string{pkg + ".const", bl.Value})
+										}
+									}
+									return true
+								})
+							}
+						}
 						if d.Tok != token.VAR {
 							continue
 						}
@@ -161,6 +174,18 @@ func runState(tier string, seed uint64, out string) {
 					}
 					return true
 				})
+				lseen := map[string]bool{}
+				ast.Inspect(d.Body, func(n ast.Node) bool {
+					// integer literals of two or more digits: a size threshold ("if len(rows) >= 10000 take the fast path")
+					// is behaviour the models do not have — they treat every size alike
+					if bl, ok := n.(*ast.BasicLit); ok && bl.Kind == token.INT {
+						if v, err := strconv.ParseInt(bl.Value, 0, 64); (err != nil || v >= 10) && !lseen[bl.Value] {
+							lseen[bl.Value] = true
+							lits = append(lits, [2]string{pkg + "." + d.Name.Name, bl.Value})
+						}
+					}
+					return true
+				})
 				ast.Inspect(d.Body, func(n ast.Node) bool {
 					if se, ok := n.(*ast.SelectorExpr); ok {
 						if id, ok := se.X.(*ast.Ident); ok && hp[id.Name] != "" && id.Obj == nil {
@@ -189,6 +214,7 @@ func runState(tier string, seed uint64, out string) {
 	srt(fields)
 	srt(hashes)
 	srt(writes)
+	srt(lits)
 	must(os.MkdirAll(out, 0o755))
 	var b strings.Builder
 	b.WriteString("(* generated by `vharness aux state` from the current source of /repo — do not edit *)\n")
@@ -208,8 +234,9 @@ func runState(tier string, seed uint64, out string) {
 	emit("struct_fields", fields)
 	emit("hash_calls", hashes)
 	emit("field_writes", writes)
+	emit("size_literals", lits)
 	must(os.WriteFile(filepath.Join(out, "State.v"), []byte(b.String()), 0o644))
-	writeJSON(filepath.Join(out, "state.json"), map[string]any{"pkg_vars": len(vars), "struct_fields": len(fields), "hash_calls": len(hashes), "field_writes": len(writes)})
+	writeJSON(filepath.Join(out, "state.json"), map[string]any{"pkg_vars": len(vars), "struct_fields": len(fields), "hash_calls": len(hashes), "field_writes": len(writes), "size_literals": len(lits)})
 	if tier == "print" {
 		fmt.Print(b.String())
 	}
